@@ -35,8 +35,37 @@ def run(res):
                 continue
             seen.add(sig)
             res.violation("C14: " + txt, "program:\n" + "\n".join(calls) + "\n\nevents:\n" + "\n".join(json.dumps(e) for e in rr["events"]), key=key)
+    long_sessions(res)
     res.sample({"program": [c for c, a, act, b in sel[len(sel) // 2]]})
     res.sample({"program": [c for c, a, act, b in sel[-1]]})
+
+
+def long_sessions(res):
+    """The abstract programs send at most two pictures.  'No call other than the documented blocking packet wait blocks
+    indefinitely' also quantifies over long sessions: the in-flight picture pools are sized by set_parameter from the
+    thread count, and send_picture blocks when they run dry.  Sessions longer than every pool, at 1, 2 and 4 logical
+    processors, retrieving output after every send (so the application never withholds anything): every call must return
+    and the session must be a behaviour of Session.tla."""
+    from checks import corpus, stream
+    cs = []
+    for lp in (1, 2, 4):
+        for hl, n in ((4, 45), (3, 40)) if res.tier == "quick" else ((4, 45), (3, 40), (2, 60), (4, 120)):
+            cs.append({"args": ["-n", str(n), "-w", "64", "-h", "64", "--policy", "each"], "n": n, "w": 64, "h": 64,
+                       "sets": {"enc_mode": 8, "logical_processors": lp, "hierarchical_levels": hl, "intra_period_length": -1}})
+    rs = corpus.run_cases(cs, want_dec=None, timeout=90)
+    b = corpus.Bundle()
+    for r in rs:
+        res.case(r["desc"])
+        if r["rc"] != 0:
+            tmo = [e for e in r["events"] if e["ev"] == "Timeout"]
+            ph = tmo[-1].get("phase") if tmo else "?"
+            res.violation("C14: a call of a long session does not return (phase %s, %s pictures sent): %s" % (ph, tmo[-1].get("sent") if tmo else "?", r["desc"]),
+                          r["log"][-2000:], key={"kind": "blocked", "call": ph, "phase": "streaming-long",
+                                                  "hierarchical_levels": r["case"]["sets"]["hierarchical_levels"]})
+            continue
+        b.add("Session", stream.session_events(r), r["desc"])
+    b.validate(res, "Session", "C14 long sessions")
+    corpus.cleanup(rs)
 
 
 def replay(res, path):
